@@ -99,6 +99,51 @@ _mk_da3("DelayAdjustedMSTDP", "weight", False)
 _mk_da3("DelayAdjustedMSTDPD", "delay", True)
 
 
+def _mk_da3_tensor(cls, param, delay_learning):
+    """reward-modulated delay-adjusted rules with a PER-SAMPLE (tensor) reward, through the structural group theory of
+    contracts/c09_split.py: every sample's term is |signal_b * scale| times the two-factor rule with the direction of each
+    half flipped by a negative reward of THAT sample; a part is None exactly when the groups feeding it are empty"""
+    from .c09_split import tensor_signal_theory
+
+    for P in ("C18", "C09"):
+        @contract(P, f"{cls}.forward[tensor_signal]", [(D3, f"{cls}.forward")], tags=("trainer",), min_obligations=3)
+        def fwd(c, cls=cls, P=P):
+            lr_pos, lr_neg, tc_pos, tc_neg = c.real("lr_pos"), c.real("lr_neg"), c.real("tc_pos"), c.real("tc_neg")
+            sig, scale = c.pw("signal_of_this_sample"), c.real("scale")
+            c.require(tc_pos > 0, tc_neg > 0)
+            tpre, tpost, mons = event_monitors(c)
+            env = Env(c, mons, dict(lr_pos=lr_pos, lr_neg=lr_neg, tc_pos=tc_pos, tc_neg=tc_neg), delayed_conn=True)
+            th = tensor_signal_theory(c, env, sig)
+            with th:
+                out = c.outcome(c.function(D3, f"{cls}.forward"), env.trainer, sig, scale)
+            c.expect_return(out)
+            pos, neg = env.captured(param)
+            d = env.conn.fields["delay"].f
+            td = tpre.f - tpost.f - d
+            never = z3.Or(tpre.nan, tpost.nan)
+            mag = sig.f * scale.z
+            mag = z3.If(mag >= 0, mag, -mag)
+            if not delay_learning:
+                causal, acausal = (lr_pos.z, tc_pos.z), (lr_neg.z, tc_neg.z)
+            else:
+                causal, acausal = (lr_neg.z, tc_neg.z), (lr_pos.z, tc_pos.z)
+            # direction of a half for this sample: the sign of its learning rate, flipped when the sample's reward is negative
+            half = lambda lr, tc: z3.If((lr >= 0) == (sig.f >= 0), zabs(lr), -zabs(lr)) * f_exp(zabs(td) / -tc)  # noqa: E731
+            rule = z3.If(never, 0, mag * z3.If(td >= 0, half(*causal), half(*acausal)))
+            c.ensure("pos_nonnegative", val(pos) >= 0)
+            c.ensure("neg_nonnegative", val(neg) >= 0)
+            c.ensure("this_samples_term_is_the_signal_scaled_delay_adjusted_rule", val(pos) - val(neg) == rule)
+            c.ensure("no_change_before_both_sides_spiked", z3.Implies(never, z3.And(val(pos) == 0, val(neg) == 0)))
+            pos_nonempty, neg_nonempty = th.part_emptiness(causal[0] >= 0, acausal[0] >= 0)
+            c.ensure("potentiating_part_is_none_iff_its_groups_are_empty", z3.BoolVal(pos is None) == z3.Not(pos_nonempty))
+            c.ensure("depressing_part_is_none_iff_its_groups_are_empty", z3.BoolVal(neg is None) == z3.Not(neg_nonempty))
+            c.canary("canary_ignores_signal_sign", z3.And(z3.Not(never), sig.f < 0, mag > 0, lr_pos.z > 0, lr_neg.z > 0, val(pos) - val(neg) == da_rule(tpre, tpost, d, lr_pos.z, lr_neg.z, tc_pos.z, tc_neg.z, delay_learning)[0] * mag))
+
+
+_mk_da3_tensor("DelayAdjustedMSTDP", "weight", False)
+_mk_da3_tensor("DelayAdjustedMSTDPD", "delay", True)
+
+
 for _P in ("C18",):
     @contract(_P, "stdkernels", [(SK, "exp_stdp_post_kernel"), (SK, "exp_stdp_pre_kernel")], tags=("kernel",))
     def kernels(c):
@@ -184,6 +229,9 @@ ASSUMPTIONS = [
 ]
 
 MUTANTS = [
+    dict(file=D3, func="DelayAdjustedMSTDP.forward", old="                    state.batchreduce(dneg, 0) if dneg.numel() else None,", new="                    state.batchreduce(dneg, 0) if dpos.numel() else None,", contracts=["DelayAdjustedMSTDP.forward[tensor_signal]"], name="tensor reward: depressing part guarded by the emptiness of the potentiating group (seed C09e transplanted)"),
+    dict(file=D3, func="DelayAdjustedMSTDP.forward", old="                    case (True, False):  # hebbian\n                        dpos = torch.cat((dpost_reg, dpre_inv), 0)\n                        dneg = torch.cat((dpost_inv, dpre_reg), 0)", new="                    case (True, False):  # hebbian\n                        dpos = torch.cat((dpost_reg, dpre_reg), 0)\n                        dneg = torch.cat((dpost_inv, dpre_inv), 0)", contracts=["DelayAdjustedMSTDP.forward[tensor_signal]"], name="tensor reward: hebbian mode routed like the potentiative one"),
+    dict(file=D3, func="DelayAdjustedMSTDPD.forward", old="                signal_pos = torch.argwhere(signal >= 0).view(-1)", new="                signal_pos = torch.argwhere(signal < 0).view(-1)", contracts=["DelayAdjustedMSTDPD.forward[tensor_signal]"], name="tensor reward: the non-negative group selected by the wrong sign"),
     dict(file=_c05.CONV, func="Conv2D.presyn_receptive", old='"b (c kh kw) l ... -> b (...) c kh kw l"', new='"b (kh kw c) l ... -> b (...) c kh kw l"', contracts=["Conv2D.layouts"], name="seed C18d: receptive view decomposes the unfolded rows as (kh kw c)"),
     dict(file=D3, func="DelayAdjustedMSTDP.forward", old="                match (state.lr_pos * signal >= 0, state.lr_neg * signal >= 0):", new="                match (state.lr_pos >= 0, state.lr_neg >= 0):", contracts=["DelayAdjustedMSTDP.forward[scalar_signal]"], name="reward sign ignored when routing LTP/LTD"),
     dict(file=D3, func="DelayAdjustedMSTDPD.forward", old="                torch.exp(t_delta_abs / (-state.tc_neg))\n                * (abs(state.lr_neg) * (t_delta >= 0).to(dtype=t_delta_abs.dtype)),", new="                torch.exp(t_delta_abs / (-state.tc_pos))\n                * (abs(state.lr_neg) * (t_delta >= 0).to(dtype=t_delta_abs.dtype)),", contracts=["DelayAdjustedMSTDPD.forward[scalar_signal]"], name="causal half uses the wrong time constant"),
